@@ -320,7 +320,9 @@ fn dec_value(bytes: &[u8], idx: &mut usize) -> Result<Value> {
         }
         4 => {
             let len = read_len(bytes, idx, info)? as usize;
-            let mut items = Vec::with_capacity(len);
+            // Every element occupies at least one input byte: never pre-allocate more
+            // than the remaining input can hold (a declared length is untrusted).
+            let mut items = Vec::with_capacity(len.min(bytes.len().saturating_sub(*idx)));
             for _ in 0..len {
                 items.push(dec_value(bytes, idx)?);
             }
@@ -328,7 +330,7 @@ fn dec_value(bytes: &[u8], idx: &mut usize) -> Result<Value> {
         }
         5 => {
             let len = read_len(bytes, idx, info)? as usize;
-            let mut entries = Vec::with_capacity(len);
+            let mut entries = Vec::with_capacity(len.min(bytes.len().saturating_sub(*idx)));
             let mut last_key: Option<Vec<u8>> = None;
             for _ in 0..len {
                 let key_start = *idx;
